@@ -38,9 +38,9 @@ def M(*kv): return V("map", es=sorted([L(k, v) for k, v in kv], key=lambda p: js
 
 
 def pool(ctx):
-    ints = [0, 1, -1, 2, 5, 7, 12, 16, 31, 100000, 1000000, 2**53, 2**53 + 1, 2**63 - 1, -2**63]
+    ints = [0, 1, -1, 2, 5, 7, 12, 16, 31, 100000, 1000000, 2**53, 2**53 + 1, 2**63 - 2, 2**63 - 1, -2**63]
     floats = [0.0, -0.0, 0.5, 1.0, 1.5, 7.0, 12.0, 100000.0, 1000000.0, 1e21, 2.0**53, 9007199254740994.0, 9.223372036854775807e18, float("inf"), float("-inf"), float("nan")]
-    strs = ["", "a", "abc", "0", "1", "12", "1000000", "-7", "1.5", "0.5", "007", "12.0", "9223372036854775808", "1e5", "0x10", "0X1F", "0b101", "-0x10", "010", " 1", "true"]
+    strs = ["", "a", "abc", "0", "1", "12", "1000000", "-7", "1.5", "0.5", "007", "12.0", "9223372036854775808", "1e5", "0x10", "0X1F", "0b101", "-0x10", "010", " 1", "true", "9223372036854775806", "9223372036854775807", "9007199254740993", "-9223372036854775808"]
     vals = [NIL, B(True), B(False)] + [I(n) for n in ints] + [F(x) for x in floats] + [S(s) for s in strs]
     vals += [L(), L(I(1)), L(I(1), I(2)), L(I(2), I(1)), L(F(1.0)), L(S("a")), L(S("1")), L(L(I(1)), L(I(2))), L(L(I(1)), L(I(3))), L(NIL), L(L()),
              M(), M((S("a"), I(1))), M((S("a"), I(2))), M((S("b"), I(1))), M((S("a"), I(1)), (S("b"), L(I(1)))), M((S("a"), F(1.0))), M((I(1), S("x")))]
